@@ -8,6 +8,8 @@ import (
 	"sort"
 	"strconv"
 	"strings"
+
+	"google.golang.org/protobuf/reflect/protoreflect"
 	"unsafe"
 
 	"google.golang.org/protobuf/proto"
@@ -284,6 +286,42 @@ func InjectNil(p proto.Message, num int) bool {
 		}
 		f.SetMapIndex(k, reflect.Zero(f.Type().Elem()))
 		return true
+	}
+	return false
+}
+
+
+// InjectNilOneof makes the oneof that fd belongs to hold fd's wrapper with a nil message inside (a state plain Go code
+// builds with &T_Member{}). fd must be a oneof member of message kind.
+func InjectNilOneof(p proto.Message, fd protoreflect.FieldDescriptor) bool {
+	od := fd.ContainingOneof()
+	if od == nil || od.IsSynthetic() || fd.Kind() != protoreflect.MessageKind {
+		return false
+	}
+	v := reflect.ValueOf(p).Elem()
+	t := v.Type()
+	var of reflect.Value
+	for i := 0; i < t.NumField(); i++ {
+		if t.Field(i).Tag.Get("protobuf_oneof") == string(od.Name()) {
+			of = v.Field(i)
+		}
+	}
+	mi := InfoOf(p)
+	if !of.IsValid() || mi == nil {
+		return false
+	}
+	for _, w := range mi.OneofWrappers {
+		wt := reflect.TypeOf(w)
+		if wt.Kind() != reflect.Ptr || wt.Elem().NumField() < 1 {
+			continue
+		}
+		parts := strings.Split(wt.Elem().Field(0).Tag.Get("protobuf"), ",")
+		if len(parts) >= 2 {
+			if n, err := strconv.Atoi(parts[1]); err == nil && protoreflect.FieldNumber(n) == fd.Number() {
+				of.Set(reflect.New(wt.Elem()))
+				return true
+			}
+		}
 	}
 	return false
 }
